@@ -614,6 +614,32 @@ func genC10Lin(t *rapid.T) *C10Case {
 		Reps:     ev.Pick(12, 30),
 		NilKey:   rapid.IntRange(0, 3).Draw(t, "nilKey") == 0,
 	}
+	if rapid.IntRange(0, 9).Draw(t, "bigCache") == 0 {
+		// a large cache (beyond any batch size an implementation may use when walking the list):
+		// filled sequentially, then Dump runs against writers
+		c.Cap = rapid.SampledFrom([]int{127, 128, 129, 200, 256, 300, 520}).Draw(t, "bigCap")
+		c.Reps = ev.Pick(3, 6)
+		fill := c.Cap + rapid.IntRange(0, 3).Draw(t, "overfill")
+		for i := 0; i < fill; i++ {
+			c.Setup = append(c.Setup, LRUOp{Kind: "S", Key: fmt.Sprintf("k%d", i), Val: 5000 + i})
+		}
+		for g := 0; g < 3; g++ {
+			var ops []LRUOp
+			nb := rapid.IntRange(1, 4).Draw(t, "bigN")
+			for i := 0; i < nb; i++ {
+				switch {
+				case g == 0:
+					ops = append(ops, LRUOp{Kind: "P"})
+				case rapid.Bool().Draw(t, "bigStore"):
+					ops = append(ops, LRUOp{Kind: "S", Key: fmt.Sprintf("n%d_%d", g, i), Val: 9000 + g*10 + i})
+				default:
+					ops = append(ops, LRUOp{Kind: rapid.SampledFrom([]string{"L", "D"}).Draw(t, "bigOp"), Key: fmt.Sprintf("k%d", rapid.IntRange(0, c.Cap-1).Draw(t, "bigKey"))})
+				}
+			}
+			c.Streams = append(c.Streams, ops)
+		}
+		return c
+	}
 	// sequential prefix: usually fills the cache, so the concurrent phase starts on a full cache
 	for i, n := 0, rapid.IntRange(0, 4).Draw(t, "nSetup"); i < n; i++ {
 		k := rapid.SampledFrom([]string{"a", "b", "c"}).Draw(t, "setupKey")
